@@ -1,16 +1,8 @@
 """C02 — Cascade output: every parent tile is the 2x2 downsample of its children mosaic."""
 PROPERTY = "C02"
 LEVEL = "other"
-CONTRACT_MODULES = ["contracts.specfuns", "contracts.lemmas_desc", "contracts.pyramid", "contracts.parallel", "contracts.walk", "contracts.reducer", "contracts.lemmas_embed", "contracts.generator", "contracts.image", "contracts.merge", "contracts.pyramidio", "contracts.study", "contracts.multitan", "contracts.multiwcs", "contracts.toastsample", "contracts.toastgeom", "contracts.toastgen", "contracts.datarange"]
-FUNCTIONS = [
-    "toasty.merge.averaging_merger",
-    "toasty.merge.TileMerger.walk_callback",
-    "toasty.merge.TileMerger._get_min_max_of_children",
-    "toasty.merge.cascade_images",
-    "toasty.image.Image.is_completely_masked",
-    "toasty.image.Image.update_into_maskable_buffer",
-    "toasty.pyramid.PyramidIO.write_image",
-]
+CONTRACT_MODULES = ['contracts.specfuns', 'contracts.lemmas_desc', 'contracts.pyramid', 'contracts.parallel', 'contracts.walk', 'contracts.reducer', 'contracts.lemmas_embed', 'contracts.generator', 'contracts.image', 'contracts.merge', 'contracts.pyramidio', 'contracts.study', 'contracts.multitan', 'contracts.multiwcs', 'contracts.toastsample', 'contracts.toastgeom', 'contracts.toastgen', 'contracts.datarange', 'contracts.paths', 'contracts.builderc']
+FUNCTIONS = ['toasty.merge.averaging_merger', 'toasty.merge.TileMerger.walk_callback', 'toasty.merge.TileMerger._get_min_max_of_children', 'toasty.merge.cascade_images', 'toasty.image.Image.is_completely_masked', 'toasty.image.Image.update_into_maskable_buffer', 'toasty.pyramid.PyramidIO.write_image', 'toasty.builder.Builder.cascade']
 LEMMAS = []
 SLOW = ()
 TRUSTED_BASE = ["pyvc VC generator; z3/cvc5", "numpy contracts of DESIGN.md 3.1 (reshape/nanmean/astype as encoded in pyvc/ndarray.py)"]
